@@ -40,6 +40,11 @@ def _mol_info(smi):
     for a in m2.GetAtoms():
         a.SetAtomMapNum(0)
     can = Chem.MolToSmiles(m2)
+    # canonical ranks computed while the map numbers were still there can leak into the output for
+    # pseudo-asymmetric ring stereo centres: canonicalise once more from the map-free string
+    m3 = Chem.MolFromSmiles(can)
+    if m3 is not None:
+        can = Chem.MolToSmiles(m3)
     return (frozenset(comp.items()), charge, can, radicals, comp.get("C", 0))
 
 
